@@ -101,6 +101,50 @@ def program_side(rep, tier):
     return jobs, texts, done
 
 
+def native_lemma(contract, name, conc, notes):
+    """the lemma's function on the real descriptors, a dict standing in for
+    the kernel hash map (update stores the bytes, lookup returns them)"""
+    import ebpfcat.hashmap as HM
+    from contracts import c09_hashmap as S
+    if not conc:
+        return {"inputs": None, "reproduced": None, "detail": "no concrete input"}
+    store = {}
+
+    def update_elem(fd, key, value, flags=0):
+        store[bytes(key)] = bytes(value)
+
+    def lookup_elem(fd, key, fmt):
+        import ctypes
+        if bytes(key) not in store:
+            raise KeyError(key)
+        return ctypes.create_string_buffer(store[bytes(key)], fmt) if isinstance(fmt, int) else store[bytes(key)]
+    saved = HM.update_elem, HM.lookup_elem
+    HM.update_elem, HM.lookup_elem = update_elem, lookup_elem
+    try:
+        prog = S.Prog()
+        prog.g_cells = {k[0]: v for k, v in store.items()}
+        for n in ("a", "b", "c"):
+            prog.__dict__[n] = type("V", (), {"fd": 9})()
+
+        class Cells(dict):
+            def __getitem__(self, k):
+                return store[bytes([k])]
+        prog.g_cells = Cells()
+        args = {k: v for k, v in conc.items() if k != "prog"}
+        try:
+            result = contract.target(prog, **args)
+        except Exception as e:      # noqa
+            return {"inputs": args, "reproduced": True, "detail": f"raised {type(e).__name__}: {e}"}
+    finally:
+        HM.update_elem, HM.lookup_elem = saved
+    env = dict(vars(S))
+    env.update(args, prog=prog, result=result)
+    failed = [k for k, c in contract.ensures.items() if not eval(c, env)]
+    return {"inputs": args, "reproduced": bool(failed),
+            "detail": f"real descriptors over a dict as the kernel map: result {result!r}, cells "
+                      f"{ {k.hex(): v.hex() for k, v in store.items()} }; clauses failing natively: {failed}"}
+
+
 def run(tier, seed):
     from contracts import c09_hashmap as S
     rep = R.Report("C09", tier, seed)
@@ -112,7 +156,9 @@ def run(tier, seed):
     saved = dict(api.REGISTRY)
     S.install()
     try:
-        for c in S.lemmas() + [S.global_var, S.member_fmt_addr]:
+        for c in S.lemmas():
+            api.verify(c, rep, quiet=True, replay=lambda n, i, nt, c=c: native_lemma(c, n, i, nt))
+        for c in [S.global_var, S.member_fmt_addr]:
             api.verify(c, rep, quiet=True)
         # members are packed one after the other, each in its own bytes
         # (C04's contract of Member.__set_name__, re-proved here)
